@@ -360,8 +360,8 @@ class BusModel:
             self.violation("wrong_kwargs", "handler", "handler %s called for %r with %r; expected one of %s"
                            % (hid, d.post, kwargs, [self._merged(d, r) for r in fresh]))
             return d.post, None
-        # several identical candidates: take the highest priority one that is allowed (most lenient)
-        match.sort(key=lambda r: (-r.prio, r.rid))
+        # several identical candidates (the workload avoids them): highest priority first, required before optional
+        match.sort(key=lambda r: (-r.prio, self._status(d, r) != REQUIRED, r.rid))
         reg = None
         for r in match:
             if self._status(d, r) != FORBIDDEN:
